@@ -73,11 +73,11 @@ func randomHistory(r *gen.Rand, n, nIDs int, withSetRTO bool) []hEvent {
 }
 
 func c10(c *core.Ctx) {
-	depth := int(c.N(5, 6))
+	depth := int(c.N(5, 7))
 	prefixes := historyPrefixes(3)
 	configs := []rigOpts{{fallback: true}, {noRetransmit: true}}
 	if c.Config == "race" {
-		depth = int(c.N(3, 4))
+		depth = int(c.N(3, 5))
 	}
 	// (i) all event histories up to the depth bound, two client configurations
 	c.Section("exhaustive-histories", int64(len(prefixes)), func(i int64, _ *gen.Rand) {
@@ -106,7 +106,7 @@ func c10(c *core.Ctx) {
 	})
 	c.MarkExhaustive(fmt.Sprintf("all histories of %d events over <=3 ids (symmetry-reduced, no-ops pruned) x 2 client configurations", depth))
 	// (iv) long random histories
-	c.Section("random-histories", c.N(300, 6000), func(i int64, r *gen.Rand) {
+	c.Section("random-histories", c.N(300, 30000), func(i int64, r *gen.Rand) {
 		st := newSeqStats()
 		h := randomHistory(r, 50+r.Intn(251), 3, false)
 		o := configs[int(i)%len(configs)]
